@@ -540,3 +540,87 @@ Section Steps.
       destruct (tfail_cases s ps root) as [E|E]; rewrite E; reflexivity.
   Qed.
 End Steps.
+
+(* ---- the tree walk after one entry of one directory has changed ---------------------------------------- *)
+Lemma twalk_walk h : forall ns r c, twalk h r ns = Some c -> walk h r ns c.
+Proof.
+  intros ns. induction ns as [|n ns IH] using rev_ind; intros r c Hw.
+  - cbn [twalk] in Hw. inversion Hw; subst. constructor.
+  - rewrite twalk_snoc in Hw. destruct (twalk h r ns) as [d|] eqn:E; [|discriminate].
+    econstructor; [apply IH; exact E|]. unfold edge. apply al_in. exact Hw.
+Qed.
+
+Lemma twalk_dir_unique h r a b p : Inv_heap h -> twalk h r a = Some p -> twalk h r b = Some p -> is_dir h p -> a = b.
+Proof. intros Hinv Ha Hb Hd. apply (walk_unique h r Hinv a p (twalk_walk h a r p Ha) b (twalk_walk h b r p Hb) Hd). Qed.
+
+Section Edit.
+  Variables (h h' : heap) (root p : nat) (ps : list str) (c : str) (v' : option nat).
+  Hypothesis Hinv : Inv_heap h.
+  Hypothesis Hrootv : root < length h.
+  Hypothesis Hps : twalk h root ps = Some p.
+  Hypothesis Hpd : is_dir h p.
+  (* the children maps agree except for the entry c of directory p, which is now v' *)
+  Hypothesis Hch : forall d c1, d < length h ->
+    alookup str_eqb c1 (children h' d) = if Nat.eqb d p && str_eqb c1 c then v' else alookup str_eqb c1 (children h d).
+  (* the new entry, if any, leads to a node without entries *)
+  Hypothesis Hnew_leaf : forall i c2, v' = Some i -> alookup str_eqb c2 (children h' i) = None.
+
+  Lemma twalk_lt : forall cs d i, d < length h -> twalk h d cs = Some i -> i < length h.
+  Proof.
+    induction cs as [|x r IH]; intros d i Hd Hw; cbn [twalk] in Hw; [inversion Hw; subst; exact Hd|].
+    destruct (alookup str_eqb x (children h d)) as [n|] eqn:El; [|discriminate].
+    apply (IH n i); [|exact Hw]. apply (I1_valid Hinv d x n). unfold edge. apply al_in. exact El.
+  Qed.
+
+  Lemma twalk_edit : forall cs pre d, twalk h root pre = Some d -> strip (ps ++ [c]) pre = None ->
+    twalk h' d cs = match strip (ps ++ [c]) (pre ++ cs) with
+                    | Some [] => v'
+                    | Some (_ :: _) => None
+                    | None => twalk h d cs
+                    end.
+  Proof.
+    induction cs as [|x r IH]; intros pre d Hpre Hnp.
+    - rewrite app_nil_r, Hnp. reflexivity.
+    - assert (Hd : d < length h) by (apply (twalk_lt pre root d Hrootv Hpre)).
+      cbn [twalk]. rewrite (Hch d x Hd).
+      destruct (Nat.eqb_spec d p) as [->|Hdp]; [destruct (str_eqb_spec x c) as [->|Hxc]|]; cbn [andb].
+      + (* the changed entry *)
+        assert (E : pre = ps) by (apply (twalk_dir_unique h root pre ps p Hinv Hpre Hps Hpd)). subst pre.
+        replace (ps ++ c :: r) with ((ps ++ [c]) ++ r) by (rewrite <- app_assoc; reflexivity). rewrite strip_app.
+        destruct v' as [n'|] eqn:Ev.
+        * destruct r as [|y r']; [reflexivity|]. cbn [twalk]. rewrite (Hnew_leaf n' y eq_refl). reflexivity.
+        * destruct r; reflexivity.
+      + assert (Hnp' : strip (ps ++ [c]) (pre ++ [x]) = None).
+        { apply strip_none. intros t E. destruct (snoc_eq_app _ _ _ _ E) as [[-> E2]|(t' & -> & E2)].
+          - apply app_inj_tail in E2. destruct E2 as [_ E3]. congruence.
+          - apply (proj1 (strip_none _ _) Hnp t'). exact E2. }
+        replace (pre ++ x :: r) with ((pre ++ [x]) ++ r) by (rewrite <- app_assoc; reflexivity).
+        destruct (alookup str_eqb x (children h p)) as [n|] eqn:El.
+        * apply IH; [rewrite twalk_snoc, Hpre; exact El|exact Hnp'].
+        * destruct (strip (ps ++ [c]) ((pre ++ [x]) ++ r)) as [[|y l]|] eqn:Es; try reflexivity.
+          exfalso. apply strip_some in Es. rewrite app_nil_r in Es. rewrite <- app_assoc in Es. cbn [app] in Es.
+          destruct r as [|z r'].
+          -- apply app_inj_tail in Es. destruct Es as [_ E3]. congruence.
+          -- destruct (@exists_last _ (z :: r') ltac:(discriminate)) as (l' & a & El').
+             rewrite El' in Es.
+             assert (E4 : (pre ++ x :: l') ++ [a] = ps ++ [c]) by (rewrite <- app_assoc; exact Es).
+             apply app_inj_tail in E4. destruct E4 as [E5 _].
+             rewrite <- E5 in Hps. rewrite twalk_app, Hpre in Hps. cbn [twalk] in Hps. rewrite El in Hps. discriminate.
+      + assert (Hnp' : strip (ps ++ [c]) (pre ++ [x]) = None).
+        { apply strip_none. intros t E. destruct (snoc_eq_app _ _ _ _ E) as [[-> E2]|(t' & -> & E2)].
+          - apply app_inj_tail in E2. destruct E2 as [E3 _]. subst pre. rewrite Hps in Hpre. congruence.
+          - apply (proj1 (strip_none _ _) Hnp t'). exact E2. }
+        replace (pre ++ x :: r) with ((pre ++ [x]) ++ r) by (rewrite <- app_assoc; reflexivity).
+        destruct (alookup str_eqb x (children h d)) as [n|] eqn:El.
+        * apply IH; [rewrite twalk_snoc, Hpre; exact El|exact Hnp'].
+        * destruct (strip (ps ++ [c]) ((pre ++ [x]) ++ r)) as [[|y l]|] eqn:Es; try reflexivity.
+          exfalso. apply strip_some in Es. rewrite app_nil_r in Es. rewrite <- app_assoc in Es. cbn [app] in Es.
+          destruct r as [|z r'].
+          -- apply app_inj_tail in Es. destruct Es as [E3 _]. subst pre. rewrite Hps in Hpre. congruence.
+          -- destruct (@exists_last _ (z :: r') ltac:(discriminate)) as (l' & a & El').
+             rewrite El' in Es.
+             assert (E4 : (pre ++ x :: l') ++ [a] = ps ++ [c]) by (rewrite <- app_assoc; exact Es).
+             apply app_inj_tail in E4. destruct E4 as [E5 _].
+             rewrite <- E5 in Hps. rewrite twalk_app, Hpre in Hps. cbn [twalk] in Hps. rewrite El in Hps. discriminate.
+  Qed.
+End Edit.
